@@ -15,10 +15,19 @@ def spec_at(f, pos):
                  ast=f.ast, cst=f.cst, cutseen=f.cutseen, last_node=f.last_node, alerts=f.alerts)
 
 
+def spec_goto(f, pos):
+    """cursor.goto clamps the position into the text"""
+    return spec_at(f, max(0, min(f.cursor.len, pos)))
+
+
+def spec_frame_wf(f):
+    return f.cursor.len == len(f.cursor.textstr) and 0 <= f.cursor.pos and f.cursor.pos <= f.cursor.len and f.cursor._namechars == f.cursor.input._namechar_set
+
+
 def spec_merged(f0, sub):
     """`merge()`: the sub-frame's position and names are kept, its cst is spliced into f0's,
     f0's cut flag is NOT changed (a cut is contained by the frame it happened in)"""
-    return Frame(cursor=Cursor(pos=sub.cursor.pos, len=f0.cursor.len, textstr=f0.cursor.textstr, input=f0.cursor.input, _namechars=f0.cursor._namechars),
+    return Frame(cursor=Cursor(pos=max(0, min(f0.cursor.len, sub.cursor.pos)), len=f0.cursor.len, textstr=f0.cursor.textstr, input=f0.cursor.input, _namechars=f0.cursor._namechars),
                  ast=sub.ast, cst=spec_cstmerge(f0.cst, sub.cst), cutseen=f0.cutseen, last_node=sub.cst,
                  alerts=f0.alerts + sub.alerts)
 
